@@ -24,13 +24,15 @@ META = dict(
                "order, and each cell is empty iff the tag has no value at or before the row time and otherwise shows "
                "the latest recorded value among those with the greatest time at or before the row time (relational "
                "specification IsHeld, shown to determine the cell uniquely). The model (stable sort, set+sort of tick "
-               "times, the mutating pop loop) is tied to csv_generator.py by differential execution.",
+               "times, the mutating pop loop) is tied to csv_generator.py by differential execution (DTO streams with times in "
+               "1/1024 s not aligned between tags, and a route stream: table written by the aggregator handlers / "
+               "PlotLogRepository, exported by get_recent_run_csv_json).",
     level_note="The theorems are about the repaired row loop (fixes/C34-csv-sample-and-hold.diff); on the unrepaired "
                "code the correspondence breaks and the oracle reports the failing plot log. Trusted: Lean kernel "
                "(+ propext/Classical.choice/Quot.sound), the harness, CPython csv writer/reader and list.sort "
                "stability (differential only). Times are finite floats (the harness feeds multiples of 1/1024 s, tags not on a common grid); NaN "
-               "times are out of scope. Metadata rows are not part of the property; header names are checked by the "
-               "oracle only.",
+               "times are out of scope. Metadata rows are not part of the property; tag columns are found by name in the "
+               "header, further columns are ignored.",
     technique="Lean 4 proof (stable insertion sort + loop invariant: the stateful pop loop is a pure function of the "
               "row time) + differential correspondence + independent CSV oracle",
 )
